@@ -499,6 +499,10 @@ def run(ctx):
     r01_5(ctx)
     r01_6(ctx)
     r08_1(ctx)
+    # lost-worker outcome: an unfinished job whose owner exited is always failed, for every exit status
+    from .c04 import r04_4, r04_5
+    r04_4(ctx)
+    r04_5(ctx)
     ctx.assume('messages on one pipe are delivered in order and not lost by the kernel')
 
 
